@@ -9,6 +9,12 @@ def m(name, rule, key, file, old, new):
     return dict(name=name, kind='mutant', rule=rule, key=key, edits=[dict(file=file, old=old, new=new)])
 
 CASES = [
+    dict(name='revert-fix-stale-offset-stop_sections', kind='mutant', rule='R4', key='stop_sections:no-stale-offset',
+         edits=[dict(file='pedal/source/sections.py', old="    # The whole file is back, so its lines are no longer shifted\n    report.submission.clear_line_offsets()\n", new="")]),
+    dict(name='revert-fix-stale-offset-next_section', kind='mutant', rule='R3', key=':no-stale-offset',
+         edits=[dict(file='pedal/source/sections.py', old="    # The whole file is back (until the next section is cut out below), so its lines are not shifted\n    report.submission.clear_line_offsets()\n", new="")]),
+    dict(name='twin-offset-reset-to-zero', kind='twin',
+         edits=[dict(file='pedal/source/sections.py', old="    # The whole file is back, so its lines are no longer shifted\n    report.submission.clear_line_offsets()\n", new="    report.submission.set_line_offset(0)\n")]),
     dict(name='revert-fix-stop_group', kind='mutant', rule='R3', key='', edits=[dict(file='pedal/core/report.py',
          old="        if group in self.groups:\n            self.groups.remove(group)", new="        if self.groups:\n            self.groups.remove(group)")]),
     m('marker-partly-captured', 'R1', 'whole-match-captured', SE, "DEFAULT_SECTION_PATTERN = r'^(##### Part .+)$'", "DEFAULT_SECTION_PATTERN = r'^##### Part (.+)$'"),
@@ -27,7 +33,7 @@ CASES = [
     m('cumulative-excludes-chunk', 'R3', 'cumulative', SE, "            new_code = ''.join(sections[:section_index + 1])", "            new_code = ''.join(sections[:section_index])"),
     m('independent-takes-marker', 'R3', 'independent', SE, "            new_code = ''.join(sections[section_index])", "            new_code = ''.join(sections[section_index - 1])"),
     m('advance-by-one', 'R3', 'next_section[', SE, "    source['section'] += 2", "    source['section'] += 1"),
-    m('stop-restores-code-only-of-last-section', 'R4', 'stop_sections:restores', SE, "    report.submission.replace_main(old_submission.code, old_submission.filename)\n    report[TOOL_NAME]['section_group'] = None", "    report[TOOL_NAME]['section_group'] = None"),
+    m('stop-restores-code-only-of-last-section', 'R4', 'stop_sections:restores', SE, "    report.submission.replace_main(old_submission.code, old_submission.filename)\n    # The whole file is back, so its lines are no longer shifted\n", "    # The whole file is back, so its lines are no longer shifted\n"),
     m('hook-event-misspelt', 'R4', 'hook:pedal.resolver.resolve', SE, "    report.add_hook('pedal.resolvers.resolve', stop_any_sections)", "    report.add_hook('pedal.resolver.resolve', stop_any_sections)"),
     m('trigger-renamed', 'R4', 'hook:pedal.resolvers.resolve', RC, "        report.execute_hooks('pedal.resolvers', 'resolve')", "        report.execute_hooks('pedal.resolvers', 'resolving')"),
     m('assertions-hook-misspelt', 'R4', 'hook:source.next_section.start', AS, "        report.add_hook('source.next_section.before', resolve_all)", "        report.add_hook('source.next_section.start', resolve_all)"),
